@@ -9,6 +9,10 @@
 //   #X 0|1             exhaustive flag (and-ed over shards)
 //   #I key \t text     free information
 #pragma once
+#include <cfenv>
+#if defined(__x86_64__) || defined(__i386__)
+#include <xmmintrin.h>
+#endif
 #include <cstdio>
 #include <cstdlib>
 #include <cstring>
@@ -105,7 +109,22 @@ inline void violation(const std::string& sig, const std::string& json) {
 }
 inline void info(const std::string& k, const std::string& v) { printf("#I %s\t%s\n", k.c_str(), v.c_str()); }
 inline void not_exhaustive() { st().exhaustive = false; }
+// The library must leave the thread's floating-point environment (rounding mode, flush-to-zero / denormals-are-zero, exception
+// masks) as it found it: every later result of the caller depends on it.
+#if defined(__x86_64__) || defined(__i386__)
+inline unsigned fp_env_word() { return (_mm_getcsr() & ~0x3fu) ^ ((unsigned)std::fegetround() << 16); }   // sticky exception flags (low 6 bits) are not part of the mode
+#else
+inline unsigned fp_env_word() { return (unsigned)std::fegetround(); }
+#endif
+inline unsigned& fp_env_at_start() { static unsigned w = fp_env_word(); return w; }
+static const unsigned vf_fp_env_captured_at_static_init = fp_env_at_start();
+inline void violation(const std::string& sig, const std::string& json);
+inline void check_fp_env(const char* where) {
+  unsigned now = fp_env_word();
+  if (now != fp_env_at_start()) { char b[160]; snprintf(b, sizeof b, "{\"where\":\"%s\",\"mode_word_at_start\":%u,\"mode_word_now\":%u}", where, fp_env_at_start(), now); violation("floating-point-environment:changed-by-the-library", b); fp_env_at_start() = now; }
+}
 inline void finish() {
+  check_fp_env("end of run");
   for (auto& kv : st().cnt) printf("#C %s %lld\n", kv.first.c_str(), kv.second);
   for (auto& kv : st().mx) printf("#M %s %s\n", kv.first.c_str(), jnum(kv.second).c_str());
   for (auto& kv : st().vio_per_sig) printf("#C violations:%s %d\n", kv.first.c_str(), kv.second);
